@@ -220,6 +220,40 @@ def property_checks(seed, deep):
                             out.append(("the result depends on the memory layout of the arguments (%s vs row-major): %s" % (how, name), 1.0, 0.0))
                     except Exception:
                         pass
+    # the listed finding on optimal_grouping is that it draws from (and advances) the global generator; where every local search
+    # ends in the one optimum -- layers in well separated clusters -- its RESULT must still be the same whatever that state is
+    from aotools.turbulence import profile_compression as pc_
+    g_ = numpy.random.default_rng(seed + 5)
+    distinct = 0
+    for trial in range(6):
+        L_ = int(g_.integers(2, 5)); per = int(g_.integers(3, 7))
+        centres = numpy.sort(g_.choice(numpy.arange(1, 20), size=L_, replace=False)) * 1000.0
+        h_ = numpy.sort(numpy.concatenate([c_ + g_.uniform(-60, 60, size=per) for c_ in centres])); p_ = g_.uniform(0.2, 1, size=h_.size) * 1e-13
+        outs_ = set()
+        st_keep = numpy.random.get_state()
+        for call in range(4):
+            numpy.random.seed(call * 7 + trial)
+            with warnings.catch_warnings():
+                warnings.simplefilter("ignore")
+                hL_, cL_ = pc_.optimal_grouping(1, L_, h_.copy(), p_.copy())
+            outs_.add((numpy.asarray(hL_).tobytes(), numpy.asarray(cL_).tobytes()))
+        numpy.random.set_state(st_keep)
+        distinct = max(distinct, len(outs_))
+    out.append(("optimal_grouping of a clustered profile (one optimum) gives one result whatever the global generator state", float(distinct - 1), 0.0))
+    # methods of the one class that is meant to be re-used: computing twice on the same object (natural and laser guide stars,
+    # off axis, a layer above the ground) gives the same matrix and the same reconstructor -- no state is carried between calls
+    from aotools.turbulence import slopecovariance as sc_
+    g2_ = numpy.random.default_rng(seed + 9)
+    mk_ = numpy.ones((2, 2)); mk3_ = numpy.array([[0, 1, 0], [1, 1, 1], [0, 1, 0]], dtype=float)
+    for alts_ in (numpy.array([0.0, 0.0, 0.0]), numpy.array([90e3, 0.0, 90e3])):
+        with warnings.catch_warnings():
+            warnings.simplefilter("ignore")
+            cm_ = sc_.CovarianceMatrix(3, [mk_, mk3_, mk_], 1.5, numpy.array([0.5, 0.5, 0.5]), alts_, g2_.uniform(-30, 30, size=(3, 2)), numpy.array([5e-7, 5e-7, 6e-7]),
+                                       2, numpy.array([0.0, g2_.uniform(2000, 9000)]), numpy.array([0.2, 0.4]), numpy.array([25.0, 30.0]), threads=1)
+            m1_ = numpy.array(cm_.make_covariance_matrix(), copy=True); r1_ = numpy.array(cm_.make_tomographic_reconstructor(svd_conditioning=1e-3), copy=True)
+            m2_ = numpy.array(cm_.make_covariance_matrix(), copy=True); r2_ = numpy.array(cm_.make_tomographic_reconstructor(svd_conditioning=1e-3), copy=True)
+        out.append(("CovarianceMatrix: a second computation on the same object returns the same matrix and reconstructor (%s guide stars)" % ("natural" if alts_.max() == 0 else "mixed"),
+                    0.0 if (numpy.array_equal(m1_, m2_, equal_nan=True) and numpy.array_equal(r1_, r2_, equal_nan=True)) else 1.0, 0.0))
     # batch clauses
     from aotools import fouriertransform as ftm, interpolation as itp
     from aotools.image_processing import centroiders as cen
